@@ -317,6 +317,9 @@ def merge_batches(batches: T.Iterable[T.Dict[str, T.Any]]) -> T.Tuple[T.List[T.D
             for key in ('t', 'tin', 'tout'):
                 if key in c:
                     c[key] = [remap[j] for j in c[key]]
+            for key in ('files', 'subs'):
+                if key in c:
+                    c[key] = [[name, [remap[j] for j in ix]] for name, ix in c[key]]
             cases.append(c)
     return alpha.items, cases
 
